@@ -214,6 +214,18 @@ func (a *Atoms) intOf(e *PPA, st *State, rv RV, d int) (int64, bool) {
 			return iv, true
 		}
 	}
+	// cmp.Compare(x, y) of two atoms with a known order
+	if call, ok := r.V.(*ssa.Call); ok {
+		if g := staticCallee(&call.Call); g != nil && pkgPathOf(g) == "cmp" && strings.HasPrefix(g.Name(), "Compare") && len(call.Call.Args) == 2 {
+			cx := a.Class(e, st, e.Resolve(st, RV{r.F, call.Call.Args[0]}))
+			cy := a.Class(e, st, e.Resolve(st, RV{r.F, call.Call.Args[1]}))
+			if cx != "" && cy != "" {
+				if rel, ok := a.rel(cx, cy); ok {
+					return int64(rel), true
+				}
+			}
+		}
+	}
 	if b, ok := r.V.(*ssa.BinOp); ok && (b.Op == token.ADD || b.Op == token.SUB) {
 		if _, isPhi := b.X.(*ssa.Phi); isPhi {
 			return 0, false // loop counters are not atoms
